@@ -2,6 +2,7 @@ SPECIFICATION BSpec
 CONSTANTS
   Locked = TRUE
   Bodies <- BodiesAll
+  Modes <- AllModes
   TickMs <- Ticks2
   MaxTicks = 8
   MaxPre = 0
